@@ -60,6 +60,11 @@ def one_kernel(ctx, rng, ci):
     case = engine.Case(node, f"C16/s{ctx.seed}/sh{ctx.shard}/{ci}")
     nchoices = sum(1 for s in f.sites() for _ in s.paths())
     init = np.float64(np.round(rng.normal(), 3))
+    r_init = rng.random()
+    if r_init < 0.12:
+        init = np.float64(np.inf)  # sentinels (running max / min accumulators) are valid states
+    elif r_init < 0.24:
+        init = np.float64(-np.inf)
     patterns = list(itertools.product([False, True], repeat=n))
     if n >= 5:
         patterns = [tuple(bool(b) for b in rng.random(n) < 0.5) for _ in range(12)]
